@@ -394,3 +394,14 @@ func (c *Ctx) writeEvidence(wall time.Duration) {
 	os.MkdirAll(dir, 0o755)
 	os.WriteFile(filepath.Join(dir, c.Prop+".json"), append(b, '\n'), 0o644)
 }
+
+// seenPrefix: an instance of rule whose key starts with prefix.
+func (c *Ctx) seenPrefix(rule, prefix string) *Instance {
+	rule = c.mapRule(rule)
+	for i := range c.Instances {
+		if c.Instances[i].Rule == rule && strings.HasPrefix(c.Instances[i].Key, prefix) {
+			return &c.Instances[i]
+		}
+	}
+	return nil
+}
